@@ -203,6 +203,18 @@ func encodeCase(mode string, breadth int, m *fga.Model, ts *typesystem.TypeSyste
 		fga.EncodeAux(fga.Aux(m, ts, rq.User)), fga.EncodeTuples("tuples", tuples), fga.EncodeTuples("ctx", ctxT), rq.Encode())
 }
 
+// hc cases carry the store before the write in front of the usual case (`tuples` = the store after it)
+func encodeHigherCase(breadth int, sc shapeCase, ts *typesystem.TypeSystem) string {
+	rest := strings.TrimPrefix(encodeCase("hc", breadth, sc.m, ts, sc.tuples, sc.ctxT, sc.rq), fmt.Sprintf("lo hc %d ", breadth))
+	return fmt.Sprintf("lo hc %d %s %s", breadth, fga.EncodeTuples("pre", sc.pre), rest)
+}
+
+// r2 derives a throw-away PRNG from a copy of r's state (r itself is not advanced)
+func r2(r *hx.Rand, salt int) *hx.Rand {
+	cp := *r
+	return hx.NewRand(cp.U64() ^ uint64(salt)*0x9E3779B97F4A7C15)
+}
+
 // ---- generator -------------------------------------------------------------------------------
 
 var extraIDs = []string{"d", "e", "f", "g", "h"}
@@ -247,6 +259,18 @@ func gen(r *hx.Rand, n int, tier string, emit func(string), st *hx.Stats) {
 			emit(encodeCase("dl", 3, cc.m, ts, cc.tuples, cc.ctxT, cc.rq))
 			st.Inc("crafted")
 		}
+	}
+	for i, sc := range shapeCases(r, tier) {
+		ts, err := typesystem.NewAndValidate(context.Background(), sc.m.Proto(fgarun.ModelID))
+		if err != nil {
+			panic("shape model invalid: " + err.Error())
+		}
+		if sc.pre != nil {
+			emit(encodeHigherCase(hx.Pick(r2(r, i+1), []int{1, 3, 10}), sc, ts))
+		} else {
+			emit(encodeCase("std", hx.Pick(r2(r, i+1), []int{1, 1, 3, 10}), sc.m, ts, sc.tuples, sc.ctxT, sc.rq))
+		}
+		st.Inc("shape:" + sc.kind)
 	}
 	multiThis := 0 // quick tier: at most one model of the shape that makes the pipeline hang (L4)
 	for i := 0; i < n; {
@@ -463,10 +487,13 @@ type world struct {
 	typ      string
 	rq       fga.Req
 	ctxT     []fga.Tuple
+	// hc mode: consistency preference of the requests and the cache plumbing of the query
+	pref      openfgav1.ConsistencyPreference
+	cacheOpts []commands.ListObjectsQueryOption
 }
 
 func (w *world) query(e engine, limit uint32, deadline time.Duration) (*commands.ListObjectsQuery, error) {
-	return commands.NewListObjectsQuery(w.ds, w.resolver, fgarun.StoreID,
+	return commands.NewListObjectsQuery(w.ds, w.resolver, fgarun.StoreID, append([]commands.ListObjectsQueryOption{
 		commands.WithListObjectsDeadline(deadline),
 		commands.WithListObjectsMaxResults(limit),
 		commands.WithResolveNodeLimit(25),
@@ -474,7 +501,7 @@ func (w *world) query(e engine, limit uint32, deadline time.Duration) (*commands
 		commands.WithMaxConcurrentReads(30),
 		commands.WithListObjectsPipelineEnabled(e.pipeline),
 		commands.WithFeatureFlagClient(featureflags.NewDefaultClient(e.flags)),
-	)
+	}, w.cacheOpts...)...)
 }
 
 func (w *world) ctxTuples() *openfgav1.ContextualTupleKeys {
@@ -525,7 +552,7 @@ func (w *world) list0(e engine, limit uint32, deadline time.Duration) string {
 	defer cancel()
 	res, err := q.Execute(ctx, &openfgav1.ListObjectsRequest{
 		StoreId: fgarun.StoreID, AuthorizationModelId: fgarun.ModelID, Type: w.typ, Relation: w.rq.Rel, User: w.rq.User,
-		ContextualTuples: w.ctxTuples(), Context: fga.CtxStruct(w.rq.Ctx),
+		ContextualTuples: w.ctxTuples(), Context: fga.CtxStruct(w.rq.Ctx), Consistency: w.pref,
 	})
 	if err != nil {
 		return canonErr(err)
@@ -563,7 +590,7 @@ func (w *world) streamed0(e engine) string {
 	fs := &fakeStream{ctx: ctx}
 	_, err = q.ExecuteStreamed(ctx, &openfgav1.StreamedListObjectsRequest{
 		StoreId: fgarun.StoreID, AuthorizationModelId: fgarun.ModelID, Type: w.typ, Relation: w.rq.Rel, User: w.rq.User,
-		ContextualTuples: w.ctxTuples(), Context: fga.CtxStruct(w.rq.Ctx),
+		ContextualTuples: w.ctxTuples(), Context: fga.CtxStruct(w.rq.Ctx), Consistency: w.pref,
 	}, fs)
 	if err != nil {
 		return canonErr(err)
@@ -672,6 +699,10 @@ func exec(line string, st *hx.Stats) string {
 	t.Expect("lo")
 	mode := t.Next()
 	breadth := t.Int()
+	var pre []fga.Tuple
+	if mode == "hc" {
+		pre = fga.DecodeTuples(t, "pre")
+	}
 	t.Expect("cfg")
 	depth := t.Int()
 	_ = t.Int()
@@ -712,6 +743,9 @@ func exec(line string, st *hx.Stats) string {
 		}
 		st.Inc("exec:deadline")
 		return strings.Join(out, " ")
+	}
+	if mode == "hc" {
+		return execHigher(w, m, pre, tuples, st)
 	}
 	if only := os.Getenv("C05_ONLY"); only != "" { // debugging aid: run a single engine/limit
 		for _, e := range engines {
